@@ -13,11 +13,16 @@ multiplication and the Frobenius-accelerated G2 multiplication rest, as coded:
 
 The field operations are the generated ones (`Gen/TowerGen.lean`: `Fq2.frobenius_map`, `Fq2.multiply_oa` — the helper calls
 `result.multiply(result, γ)`), the constants come from the `TowerConsts` class (instance for `Fq`: `Impl/ConstsFq.lean`,
-regenerated from the source).  Executable; no Mathlib.
+regenerated from the source).  
+Second part: the interleaved evaluation loops of `G1::multiply_endomorphism` (l.173, two wNAF-recoded halves over one
+table, window 4) and `G2::multiply_frobenius` (l.326, four recoded digits over four tables, window 2, 65 fixed
+iterations), generic in the record of group operations `GOps` (`Impl/ScalarMul.lean`) like the other evaluation loops,
+and their instantiation with the generated Jacobian arithmetic (`Gen/CurveGen.lean`).  Executable; no Mathlib.
 -/
 import JediVerif.Impl.ConstsFq
 import JediVerif.Gen.TowerGen
 import JediVerif.Gen.CurveGen
+import JediVerif.Impl.ScalarMul
 
 namespace Jedi.Impl
 open Jedi.Gen
@@ -93,5 +98,91 @@ def frobTablePt [Add F] [Sub F] [Mul F] [Neg F] [TowerConsts F] (Q : Pt (Q2 F)) 
   [Q, Pt.neg (g2FrobPt Q), g2FrobPt (g2FrobPt Q), Pt.neg (g2FrobPt (g2FrobPt (g2FrobPt Q)))]
 
 end
+
+/-! ### the interleaved wNAF evaluation loops -/
+section Loops
+variable {G : Type}
+
+/-- One "lane" of an interleaved loop: a recoded scalar together with the table it indexes, the map applied to the
+looked-up entry (`endomorphism` for the second half of the GLV loop, nothing otherwise) and the sign flag
+(`c0_neg` / `c1_neg`; `false` in `multiply_frobenius`). -/
+structure Lane (G : Type) where
+  table : Nat → G
+  pre : G → G
+  flip : Bool
+  digits : List Int
+
+/-- the conditional block for one digit `d = wnaf[i]` (`0` when `i ≥ wnaf_size`):
+`d > 0`: add `pre(table[d >> 1])`, negated when the flag is set;  `d < 0`: add `pre(table[(−d) >> 1])`, negated when the
+flag is clear;  in both cases `found_one ← true`. -/
+def digitAdd (ops : GOps G) (L : Lane G) (st : G × Bool) (d : Int) : G × Bool :=
+  if d = 0 then st
+  else if d > 0 then
+    let e := L.pre (L.table (d.toNat / 2))
+    (ops.add st.1 (if L.flip then ops.neg e else e), true)
+  else
+    let e := L.pre (L.table ((-d).toNat / 2))
+    (ops.add st.1 (if L.flip then e else ops.neg e), true)
+
+/-- one iteration `i` of the outer loop: double when `found_one`, then the blocks of all lanes in order. -/
+def interStep (ops : GOps G) (lanes : List (Lane G)) (st : G × Bool) (i : Nat) : G × Bool :=
+  lanes.foldl (fun s L => digitAdd ops L s (L.digits.getD i 0)) (if st.2 then ops.dbl st.1 else st.1, st.2)
+
+/-- the state `(result, found_one)` after the first `n` iterations `i = top−1, …, top−n` of
+`for (i = top − 1; i != −1; i−−)`, starting from `(zero, false)`. -/
+def interRun (ops : GOps G) (lanes : List (Lane G)) (top : Nat) : Nat → G × Bool
+  | 0 => (ops.zero, false)
+  | n + 1 => interStep ops lanes (interRun ops lanes top n) (top - 1 - n)
+
+/-- `table.table[j]` of a filled `WnafTable`. -/
+def tableOf (ops : GOps G) (w : Nat) (P : G) : Nat → G :=
+  let t := fillTable ops w P
+  fun j => t.getD j ops.zero
+
+/-- `G1::multiply_endomorphism(a, c0, c0_neg, c1, c1_neg)`: window 4, 256-bit registers, one table, the loop runs from
+the larger of the two recoding lengths. -/
+def multiplyEndomorphism (ops : GOps G) (endo : G → G) (a : G) (c0 : Nat) (c0neg : Bool) (c1 : Nat) (c1neg : Bool) : G :=
+  let wc0 := wnafDigits 256 4 false c0
+  let wc1 := wnafDigits 256 4 false c1
+  let larger := if wc0.length < wc1.length then wc1.length else wc0.length
+  let wt := tableOf ops 4 a
+  (interRun ops [⟨wt, id, c0neg, wc0⟩, ⟨wt, endo, c1neg, wc1⟩] larger larger).1
+
+/-- `G1::multiply_endomorphism(a, scalar)`: both branches of the `compare(scalar, r)` test decompose `scalar` itself
+(the difference `scalar − r` is computed into a local that shadows the point and is never used). -/
+def multiplyEndomorphismScalar (ops : GOps G) (endo : G → G) (a : G) (scalar : Nat) : G :=
+  let g := decomposeLambda scalar
+  multiplyEndomorphism ops endo a g.c0 g.c0neg g.c1 g.c1neg
+
+/-- `G2::multiply_frobenius(a, PowersOfX)`: `t` is the array `t[0..3]` after the set-up loops; window 2, 64-bit
+registers, four tables, `for (i = 64; i != −1; i−−)`. -/
+def multiplyFrobenius (ops : GOps G) (t : List G) (c : List Nat) : G :=
+  let lanes := (List.range 4).map fun j =>
+    (⟨tableOf ops 2 (t.getD j ops.zero), id, false, wnafDigits 64 2 false (c.getD j 0)⟩ : Lane G)
+  (interRun ops lanes 65 65).1
+
+/-- `G2::multiply_frobenius(a, scalar)`: decompose, then the loop; `tarr` builds `t[0..3]` from `a`. -/
+def multiplyFrobeniusScalar (ops : GOps G) (tarr : G → List G) (a : G) (scalar : Nat) : G :=
+  multiplyFrobenius ops (tarr a) (xadic scalar)
+
+end Loops
+
+/-! ### the instantiations with the generated Jacobian arithmetic -/
+
+/-- `G1`'s operations: `Projective<Fq>::add / negate / multiply2` (generated) and `G1::zero = (0, 1, 0)`. -/
+def jacOps (F : Type) [Add F] [Sub F] [Mul F] [Neg F] [Zero F] [One F] [DecidableEq F] : GOps (Jac F) :=
+  ⟨Proj.add, Proj.negate, Proj.multiply2, ⟨0, 1, 0⟩⟩
+
+/-- `G2`'s operations: the `Fq2` instantiation of the same templates (generated separately). -/
+def jacOps2 (F : Type) [Add F] [Sub F] [Mul F] [Neg F] [Zero F] [One F] [DecidableEq F] : GOps (Jac (Q2 F)) :=
+  ⟨Proj2.add, Proj2.negate, Proj2.multiply2, ⟨0, 1, 0⟩⟩
+
+/-- the model of `G1::multiply_endomorphism(a, scalar)` on Jacobian triples over `Fq`. -/
+def g1MultiplyEndomorphism (a : Jac Fq) (scalar : Nat) : Jac Fq :=
+  multiplyEndomorphismScalar (jacOps Fq) g1Endo a scalar
+
+/-- the model of `G2::multiply_frobenius(a, scalar)` on Jacobian triples over `Fq2`. -/
+def g2MultiplyFrobenius (a : Jac Fq2) (scalar : Nat) : Jac Fq2 :=
+  multiplyFrobeniusScalar (jacOps2 Fq) frobTable a scalar
 
 end Jedi.Impl
